@@ -437,6 +437,19 @@ def run(tier: str, rng: random.Random, proof_ok: bool) -> dict:
                 # line structure (indentation level of every line, in order) against the model's msg_levels
                 levels = [(len(ln) - len(ln.lstrip(" "))) // 4 for ln in m1.split("\n")]
                 lines.append((f"(msg_levels 0%nat {coq(inv_t)})", "[" + "; ".join(f"{k}%nat" for k in levels) + "]", c))
+            if type(m1) is str:
+                # every keyed entry keeps its label, in order (a line may carry more than its label; values shown in
+                # it are shortened, so only line starts are read)
+                starts = [ln.lstrip(" ") for ln in m1.split("\n")]
+                pos, lost = 0, None
+                for lab in message_labels(inv):
+                    nxt = next((j for j in range(pos, len(starts)) if starts[j].startswith(lab)), None)
+                    if nxt is None:
+                        lost = lab
+                        break
+                    pos = nxt + 1
+                if lost is not None and not any("\n" in repr(k_) for k_ in [m1[:0]]):
+                    report("C12:message-labels", f"the message does not label the entry {lost!r} of its container (labels in order: {message_labels(inv)!r}): {m1!r}", c)
             if type(m1) is str and len(m1.split("\n")) != message_lines(inv):
                 report("C12:message-entries", f"the message has {len(m1.split(chr(10)))} lines for an error tree with {message_lines(inv)} "
                                               f"entries (one per failing key, index, pair, member, variant and predicate): {m1!r}", c)
@@ -451,6 +464,39 @@ def run(tier: str, rng: random.Random, proof_ok: bool) -> dict:
            "samples": samples or [{"note": "see rule"}], "traces_validated_against_impl": len(lines),
            "corr_wall_s": round(time.time() - t0, 1)}
     return {"violations": violations, "coverage": cov}
+
+
+def message_labels(inv: Any, depth: int = 0) -> List[str]:
+    """The labels the message gives the entries of the keyed containers, in order: repr of a record key, the index of
+    a list / tuple position, the key of a map pair with its side - at whatever depth the container sits."""
+    from koda_validate import errors as KE
+    if type(inv) is not Invalid or depth > 60:
+        return []
+    e = inv.err_type
+    out: List[str] = []
+    if isinstance(e, KE.KeyErrs):
+        for k, ch in e.keys.items():
+            out.append(f"{k!r}: ")
+            out += message_labels(ch, depth + 1)
+    elif isinstance(e, KE.IndexErrs):
+        for i, ch in e.indexes.items():
+            out.append(f"{i}: ")
+            out += message_labels(ch, depth + 1)
+    elif isinstance(e, KE.MapErr):
+        for k, kv in e.keys.items():
+            for side, ch in (("key", kv.key), ("val", kv.val)):
+                if ch is not None:
+                    out.append(f"{k!r} ({side}): ")
+                    out += message_labels(ch, depth + 1)
+    elif isinstance(e, KE.UnionErrs):
+        for ch in e.variants:
+            out += message_labels(ch, depth + 1)
+    elif isinstance(e, KE.SetErrs):
+        for ch in e.item_errs:
+            out += message_labels(ch, depth + 1)
+    elif isinstance(e, KE.ContainerErr):
+        out += message_labels(e.child, depth + 1)
+    return out
 
 
 def message_lines(inv: Any) -> int:
